@@ -69,6 +69,8 @@ def run_group(G, tier, seed, only_cases=None):
                     if not em:
                         raise vk.ToolError(f"{m['cfg']} emitted no cases")
                     mx = m.get("max_emit")
+                    # TLC's workers print in a schedule-dependent order: canonicalise before sampling
+                    em.sort(key=lambda c: json.dumps(c, sort_keys=True))
                     if mx and len(em) > mx:
                         rnd = random.Random(seed * 7919 + len(em))
                         em = rnd.sample(em, mx)
